@@ -124,3 +124,135 @@ func vfC02_Stream() {
 	}
 	vfReach("end")
 }
+
+// vfC02_Chunks: after a genuine handshake the server writes three chunks A, B, C (symbolic sizes
+// and contents).  The attacker delivers whole chunks duplicated, reordered or dropped.  The client
+// returns exactly A (a prefix of what was sent) and the read that meets the misplaced chunk fails.
+//   cases: mode (0 duplicate B, 1 swap B and C, 2 drop B, 3 replay A's chunk after A)
+func vfC02_Chunks() {
+	mode := vfCase("mode")
+	psk := vfBytes("psk", 16)
+	cc, sconn, ct, st := vfHandshake(psk, false)
+	st.out = nil
+	var cut [4]int
+	var data [3][]byte
+	for i := 0; i < 3; i++ {
+		n := vfInt("n")
+		vfAssume(n >= 1 && n <= 40)
+		data[i] = vfBytes("data", n)
+		k, err := sconn.Write(data[i])
+		vfAssert(err == nil && k == n, "server write")
+		cut[i+1] = len(st.out)
+	}
+	A, B, C := st.out[:cut[1]], st.out[cut[1]:cut[2]], st.out[cut[2]:cut[3]]
+	var wire []byte
+	wire = append(wire, A...)
+	good := 1 // chunks that are still in place
+	switch mode {
+	case 0:
+		wire = append(wire, B...)
+		wire = append(wire, B...)
+		wire = append(wire, C...)
+		good = 2
+	case 1:
+		wire = append(wire, C...)
+		wire = append(wire, B...)
+	case 2:
+		wire = append(wire, C...)
+	case 3:
+		// the body of A (length chunk + payload chunk follow the 16-byte salt and 43-byte header)
+		wire = append(wire, A[16+43:]...)
+		wire = append(wire, B...)
+	}
+	ct.data = wire
+	ct.pos, ct.reads, ct.frags = 0, 0, 0
+	for i := 0; i < good; i++ {
+		buf := make([]byte, 100)
+		got, err := cc.Read(buf)
+		vfAssert(err == nil && got == len(data[i]), "chunks still in place are delivered")
+		w := vfInt("w")
+		vfAssume(w >= 0 && w < got)
+		vfAssert(buf[w] == data[i][w], "delivered bytes are what the genuine peer sent")
+	}
+	buf := make([]byte, 100)
+	got, err := cc.Read(buf)
+	vfAssert(err != nil && got == 0, "a duplicated, reordered, dropped or replayed chunk is never delivered as data")
+	vfReach("end")
+}
+
+// vfC02_CrossSession: two genuine sessions under the same key; the response recorded from one is
+// played to the client of the other, which must not accept it.
+func vfC02_CrossSession() {
+	psk := vfBytes("psk", 16)
+	cc1, _, ct1, _ := vfHandshake(psk, false)
+	_, sconn2, _, st2 := vfHandshake(psk, false)
+	st2.out = nil
+	data := vfBytes("data", 8)
+	k, err := sconn2.Write(data)
+	vfAssert(err == nil && k == 8, "server write")
+	ct1.data = st2.out
+	ct1.pos, ct1.reads, ct1.frags = 0, 0, 0
+	buf := make([]byte, 100)
+	got, rerr := cc1.Read(buf)
+	vfAssert(rerr != nil && got == 0, "a response bound to another request is never accepted")
+	vfReach("end")
+}
+
+// vfC02_WrongKey: a peer speaking under a key the server does not hold never produces a
+// connection request; a server holding another key never gets a response accepted by the client.
+//   cases: dir (0 client->server, 1 server->client)
+func vfC02_WrongKey() {
+	dir := vfCase("dir")
+	psk := vfBytes("psk", 16)
+	other := vfBytes("other", 16)
+	j := vfInt("j")
+	vfAssume(j >= 0 && j < 16 && psk[j] != other[j])
+	if dir == 0 {
+		wire, _, _, _ := vfGenuineRequest(other, vfBytes("payload", 5))
+		ucfg, err := NewUserCipherConfig(psk, false)
+		vfAssert(err == nil, "server cipher config")
+		server := (&StreamServerConfig{UserCipherConfig: ucfg}).NewStreamServer()
+		sc := &vfConn{}
+		sc.data = wire
+		sc.tag = "S"
+		_, err = server.HandleStream(sc, zap.NewNop())
+		vfAssert(err != nil, "a handshake made under a key the server does not hold never yields a request")
+	} else {
+		// the client dials under psk; a server under the other key answers a request of its own
+		cc, _, ct, _ := vfHandshake(psk, false)
+		_, sconnO, _, stO := vfHandshake(other, false)
+		stO.out = nil
+		k, err := sconnO.Write(vfBytes("data", 8))
+		vfAssert(err == nil && k == 8, "foreign server write")
+		ct.data = stO.out
+		ct.pos, ct.reads, ct.frags = 0, 0, 0
+		buf := make([]byte, 100)
+		got, rerr := cc.Read(buf)
+		vfAssert(rerr != nil && got == 0, "a response made under another key is never accepted")
+	}
+	vfReach("end")
+}
+
+// vfC02_Nonce: one inductive step of the per-direction nonce counter from an arbitrary state: the
+// 96-bit little-endian counter advances by exactly one (so within one direction of a session no
+// (key, nonce) pair is ever used for two chunks before 2^96 operations, which is what makes
+// duplicated, reordered and spliced chunks fail authentication at any distance, not only among the
+// first few chunks the other harnesses exercise).
+func vfC02_Nonce() {
+	var c ShadowStreamCipher
+	nb := vfBytes("nonce", nonceSize)
+	copy(c.nonce[:], nb)
+	lo := uint64(nb[0]) | uint64(nb[1])<<8 | uint64(nb[2])<<16 | uint64(nb[3])<<24 | uint64(nb[4])<<32 | uint64(nb[5])<<40 | uint64(nb[6])<<48 | uint64(nb[7])<<56
+	hi := uint32(nb[8]) | uint32(nb[9])<<8 | uint32(nb[10])<<16 | uint32(nb[11])<<24
+	increment(c.nonce[:])
+	n := c.nonce
+	lo2 := uint64(n[0]) | uint64(n[1])<<8 | uint64(n[2])<<16 | uint64(n[3])<<24 | uint64(n[4])<<32 | uint64(n[5])<<40 | uint64(n[6])<<48 | uint64(n[7])<<56
+	hi2 := uint32(n[8]) | uint32(n[9])<<8 | uint32(n[10])<<16 | uint32(n[11])<<24
+	vfAssert(lo2 == lo+1, "the nonce counter advances by exactly one (low 64 bits)")
+	carry := uint32(0)
+	if lo2 == 0 {
+		carry = 1
+	}
+	vfAssert(hi2 == hi+carry, "the carry propagates into the high 32 bits")
+	vfReach("end")
+}
